@@ -135,7 +135,7 @@ Definition exn_out (e : exn) : out := [RExn e].
 (* minimum_load_factor(mlf) *)
 Definition set_mlf_op (t : table) (a : mlfarg) : table * out :=
   match a with
-  | MNaN => (set_mlf t 0 0, [RNone])      (* NaN passes both range tests; (0,0) encodes NaN *)
+  | MNaN => (t, exn_out EInvalidArgument)  (* !(mlf >= 0.0) holds for NaN *)
   | MRat neg n d =>
     if d =? 0 then (t, exn_out EUnmodelled)
     else if neg && negb (n =? 0) then (t, exn_out EInvalidArgument)
@@ -153,7 +153,7 @@ Fixpoint traverse_fwd (t : table) (p : N * N) (n : nat) : list rv :=
   | S n' =>
     if (fst p =? fst (end_pos t)) && (snd p =? 0) then []
     else match bget (cur t) (fst p) (snd p) with
-         | Some e => RKV (ekey e) (eval e) :: traverse_fwd t (it_next c t p) n'
+         | Some e => RPos (fst p) (snd p) :: RKV (ekey e) (eval e) :: traverse_fwd t (it_next c t p) n'
          | None => [RExn EUnmodelled]
          end
   end.
@@ -167,7 +167,7 @@ Fixpoint traverse_bwd (t : table) (p : N * N) (n : nat) : list rv :=
          | None => [RExn EUnmodelled]
          | Some p' =>
            match bget (cur t) (fst p') (snd p') with
-           | Some e => RKV (ekey e) (eval e) :: traverse_bwd t p' n'
+           | Some e => RPos (fst p') (snd p') :: RKV (ekey e) (eval e) :: traverse_bwd t p' n'
            | None => [RExn EUnmodelled]
            end
          end
